@@ -14,6 +14,12 @@ claimed={
         'Each (value,status) pair of each AdvanceFrame (first simulations and re-simulations) is compared with the truth, the last received frame and the predictor; confirmed inputs are frozen and compared on every later re-simulation.'),
  'C04':(M,'6 C04','grid over windows 0..=12 x delays x saving modes x every starvation length and start (Input-class outage), k<=1/2 further deviations, lockstep via advance_frame_with_wait, plus stateful exploration for w in {0,1,2}',
         'For every window 0..=12 one peer is starved of remote input for every length up to far beyond the window; the speculation bound, the load bound and the lockstep rules are checked on every call; mode S covers all fates for w<=2.'),
+ 'C05':(M,'6 C05','deviation-bounded enumeration of packet faults after synchronisation (k<=2/3), exhaustive burst-outage grids (direction set x start x length < timeout), stateful exploration (visited set) of all Input/InputAck loss/hold patterns on the two-peer core and the host<->spectator link, handshake under k faults; recovery probes judged against the fault-free advance rate',
+        'From the end of every explored fault pattern a fault-free probe phase must bring every session and spectator back to advancing (no Disconnected, timeline intact). Mode S covers unbounded numbers of lost acknowledgements to a round depth.'),
+ 'C07':(D,'6 C07','grid enumeration: moment of death x subsets of the last packets lost x topology/window/delay/saving/timeouts (+spectator), silences of every length, explicit disconnect at every round, k<=1 extra deviation; timer reference model replayed over the actual polls and packet hand-overs; final-timeline oracle',
+        'Event rounds must equal the timer model exactly (not earlier, not later, once); the survivor final timeline must be the real inputs up to the cut-off and (default, Disconnected) after it, spectators included.'),
+ 'C14':(M,'6 C14','word sweeps through the real encode/decode: all (reference, sequence) pairs over a small alphabet, a run-length stress family, all byte strings up to 2/3 bytes (+ reduced-alphabet 4-5 bytes) in child processes under a counting allocator',
+        'Round trip compared with the reference model (the list itself); totality = no panic, no abort, peak allocation under 4x the largest legitimate expansion, for every enumerated byte string.'),
  'C13':(M,'6 C13','grid enumeration of all builder configurations x input programs, and every (frame, simulation index) placement of a nondeterministic step; reference model of the expected verdict',
         'Every configuration of the grid is either rejected by the builder (and must be invalid) or run 60 frames; every placement of one perturbed simulation must be reported within check_distance+2 calls naming frame g+1. One known finding (first simulation never checksummed).'),
 }
